@@ -21,7 +21,7 @@ fixes/C45-verify-block-root.diff (the block hash tree root is taken from the val
 | a recoverable, unhealthy file gets a repair attempt, whatever the number of servers holding the good shares (seed C45-d) | `recoverable_unhealthy_repair_attempted` |
 | the post-repair results describe the grid after the repair (seed C45-c) | `post_repair_healthy_implies_N_good` |
 | count-shares-good / corrupt-share lists of `_format_results` | `healthy_iff_N_good` (count), `corrupt_shares_listed` (the corrupt / incompatible lists and their counts) |
-| check without verification believes the servers | by definition of `ServerResult.verified` for verify=False; correspondence + monitor only |
+| check without verification believes the servers | `noverify_believes_servers` (model `checkServerShares` / `checkNoVerify`, tied to `Checker._check_server_shares` + `_format_results`) |
 -/
 namespace Tahoe.C45
 open Tahoe.Integrity Tahoe.Base.Merkle
@@ -186,6 +186,46 @@ example :
     let pre : List ServerResult := [⟨0, [0], [], [], true⟩, ⟨1, [1], [], [], true⟩, ⟨2, [], [2], [], true⟩]
     gatherRepairResults 3 4 pre [(3, 3)] = ⟨false, true, 3⟩ ∧
     gatherRepairResults 3 4 pre [(3, 3), (2, 2)] = ⟨true, true, 4⟩ := by decide
+
+/-- **noverify_believes_servers**: a check without verification counts exactly the distinct share numbers that some
+    answering server CLAIMS to hold (it never reads them), reports no corrupt or incompatible share, and is healthy /
+    recoverable by that count alone. -/
+theorem noverify_believes_servers (k n : Nat) (answers : List (Nat × Option (List Nat))) :
+    let rs := answers.map (fun a => checkServerShares a.1 a.2)
+    (∀ sh, sh ∈ verifiedKeys rs ↔ ∃ a ∈ answers, ∃ bs, a.2 = some bs ∧ sh ∈ bs) ∧
+    corruptLocators rs = [] ∧ incompatibleLocators rs = [] ∧
+    ((checkNoVerify k n answers).healthy = true ↔ (verifiedKeys rs).length = n) ∧
+    ((checkNoVerify k n answers).recoverable = true ↔ k ≤ (verifiedKeys rs).length) ∧
+    (checkNoVerify k n answers).countCorrupt = 0 := by
+  intro rs
+  have hc : ∀ a : Nat × Option (List Nat), (checkServerShares a.1 a.2).corrupt = [] ∧
+      (checkServerShares a.1 a.2).incompatible = [] := by
+    intro a; cases h : a.2 <;> simp [checkServerShares, h]
+  refine ⟨?_, ?_, ?_, by simp [checkNoVerify, formatResults, rs], by simp [checkNoVerify, formatResults, rs], ?_⟩
+  · intro sh
+    rw [(verifiedKeys_spec rs).2 sh]
+    constructor
+    · rintro ⟨r, hr, hv⟩
+      obtain ⟨a, ha, rfl⟩ := List.mem_map.mp hr
+      cases h : a.2 with
+      | none => simp [checkServerShares, h] at hv
+      | some bs => exact ⟨a, ha, bs, h, by simpa [checkServerShares, h] using hv⟩
+    · rintro ⟨a, ha, bs, h, hv⟩
+      exact ⟨checkServerShares a.1 a.2, List.mem_map.mpr ⟨a, ha, rfl⟩, by simpa [checkServerShares, h] using hv⟩
+  · simp [corruptLocators, rs, List.flatMap_map, (hc _).1]
+  · simp [incompatibleLocators, rs, List.flatMap_map, (hc _).2]
+  · have := (corrupt_shares_listed_count k n rs)
+    rw [show checkNoVerify k n answers = formatResults k n rs from rfl, this]
+    simp [corruptLocators, rs, List.flatMap_map, (hc _).1]
+    clear this hc rs
+    induction answers with
+    | nil => rfl
+    | cons a rest ih => simpa using ih
+
+/-- 2-of-3: server 0 claims shares 0,1 (whatever their bytes are), server 1 does not answer, server 2 claims 1,2 -/
+example :
+    checkNoVerify 2 3 [(0, some [0, 1]), (1, none), (2, some [1, 2])] = ⟨true, true, 3, 0, 0⟩ ∧
+    checkNoVerify 2 3 [(0, some [0]), (1, none)] = ⟨false, false, 1, 0, 0⟩ := by decide
 
 /-- **corrupt_shares_listed**: the corrupt (incompatible) share list of a check names exactly the (server, share)
     pairs some server's verification classified as corrupt (incompatible), and `count-corrupt-shares` is its length. -/
